@@ -467,11 +467,17 @@ class Model:
 
         alg_states_left = 0
 
+        # The affine rewrite replaces the variable symbols by state vectors, after
+        # which no other simplification can be applied. When iterating, it is
+        # therefore done once, after the last iteration.
+        affine_last = options.get("iterative_simplification", False) and options["reduce_affine_expression"]
+        pass_options = dict(options, reduce_affine_expression=False) if affine_last else options
+
         for simplification_iter in range(SIMPLIFICATION_LOOP_LIMIT):
             if options.get("iterative_simplification", False):
                 logger.info("Simplification iteration {}".format(simplification_iter + 1))
 
-            self._simplify_once(options)
+            self._simplify_once(pass_options)
 
             if options.get("iterative_simplification", False) and alg_states_left != len(
                 self.alg_states
@@ -482,6 +488,13 @@ class Model:
                 break
         else:
             logger.warning("Simplification exceeded maximum iteration limit.")
+
+        if affine_last:
+            self._simplify_once(
+                _merge_default_options(
+                    {"reduce_affine_expression": True, "expand_mx": options["expand_mx"]}
+                )
+            )
 
         logger.info("Finished model simplification")
 
